@@ -34,8 +34,38 @@ def expected_warnings(p, cfg, oracle_cats, suppress):
     return miss, surp
 
 
+def type_mismatches(p, cfg):
+    """(locale, namespace, path) where one of the default locale / the locale has a group and the other a direct value"""
+    out = []
+    default = cfg["default"]
+    for (ns, l), tree in p["files"].items():
+        if l == default or l not in cfg["locales"] or (ns, default) not in p["files"]:
+            continue
+
+        def rec(d, t, prefix):
+            for k, dv in d.items():
+                if k in t and t[k] != "null" and dv != "null" and isinstance(dv, dict) != isinstance(t[k], dict):
+                    out.append((l, ns, prefix + (k,)))
+                elif k in t and isinstance(dv, dict) and isinstance(t[k], dict):
+                    rec(dv, t[k], prefix + (k,))
+        rec(merged_key_tree(p["files"][(ns, default)]), merged_key_tree(tree), ())
+    return out
+
+
 def make_oracle(suppress):
     def oracle(ctx, p, o, i):
+        mm = type_mismatches(p, o["impl"]["cfg"]) if "cfg" in o["impl"] else []
+        if mm:
+            ctx.count("type-mismatch-projects")
+        if "ok" in o["ci"] and mm:
+            report_violation(ctx, "diagnostics:subkey-mismatch-accepted", {
+                "case": project_text(p), "mismatches": [list(map(str, x)) for x in mm], "implementation": "accepted",
+                "expected_by_spec": "error SubKeyMissmatch naming the locale and the key: one side has subkeys, the other a direct value",
+                "harness": "parser_h pipeline" + (" (suppress)" if suppress else "")})
+            return
+        if o["ci"].get("err") == "SubKeyMissmatch" and not mm:
+            report_violation(ctx, "diagnostics:subkey-mismatch-spurious", {"case": project_text(p), "implementation": o["impl"].get("result")})
+            return
         if "ok" not in o["ci"]:
             ctx.seen(project_text(p), nontrivial=False)
             return
